@@ -524,6 +524,11 @@ func c12Helpers(r *eng.Run) {
 		if _, err := wsflate.CompressFrame(nf); err == nil {
 			r.Failf("nonfinal_accepted", "CompressFrame accepted a non-final frame")
 		}
+		// Non-final frames are refused by the decompressing helper too, with
+		// or without the compression bit (a middle fragment has none).
+		if _, err := wsflate.DecompressFrame(nf); err == nil {
+			r.Failf("nonfinal_accepted", "DecompressFrame accepted a non-final frame (without the compression bit)")
+		}
 		nf.Header.Rsv |= 4
 		if _, err := wsflate.DecompressFrame(nf); err == nil {
 			r.Failf("nonfinal_accepted", "DecompressFrame accepted a non-final frame")
@@ -551,6 +556,20 @@ func c12Helpers(r *eng.Run) {
 	}
 	if !bytes.Equal(msg, keep) {
 		r.FailProp("C17", "caller_slice_modified", "compress helper modified the caller's payload")
+	}
+	if r.T.Bool(sim.LHist) {
+		// The sender prepares the next frame before this one has gone out.
+		other := ws.NewFrame(ws.OpBinary, true, patBytes(41, 0, 1+r.T.Int(sim.LLen, 3000)))
+		switch variant {
+		case 0:
+			wsflate.CompressFrame(other)
+		case 1:
+			var buf2 bytes.Buffer
+			wsflate.CompressFrameBuffer(&buf2, other)
+		default:
+			wsflate.DefaultHelper.Compress(other.Payload)
+		}
+		r.Probe("second_frame_compressed_before_first_is_sent")
 	}
 	wantH := f.Header
 	wantH.Rsv |= 4
